@@ -349,7 +349,7 @@ var basicObjects = []*ObjectSchema{
 		"Int",
 		map[string]*PropertySchema{
 			"min": NewPropertySchema(
-				NewIntSchema(IntPointer(0), nil, nil),
+				NewIntSchema(nil, nil, nil),
 				NewDisplayValue(
 					PointerTo("Minimum"),
 					PointerTo("Minimum value for this int (inclusive)."),
@@ -363,7 +363,7 @@ var basicObjects = []*ObjectSchema{
 				[]string{"5"},
 			),
 			"max": NewPropertySchema(
-				NewIntSchema(IntPointer(0), nil, nil),
+				NewIntSchema(nil, nil, nil),
 				NewDisplayValue(
 					PointerTo("Maximum"),
 					PointerTo("Maximum value for this int (inclusive)."),
